@@ -1,23 +1,25 @@
 ---------------------------- MODULE EcGenTwin ----------------------------
 (* Generator (mode B) for double-scalar multiplication k*P + l*Q on the 8-bit curves (property C02).
-   One state per (curve, P, Q, l); the state carries the row  row[k+1] = k*P + l*Q  for EVERY k = 0..KMax,
-   so over a run every pair (k, l) in (0..KMax)^2 is there for each chosen (P, Q).
+   One state per (curve, P, Q, l); the state carries the row  row[k+1] = k*P + l*Q  for EVERY k = 0..KMax.
+   For a "full" pair (P, Q) every l = 0..KMax has its row, i.e. EVERY pair (k, l) in (0..KMax)^2 is there; for the
+   other pairs only l = 0, 1, n-1, n, KMax and the multiples of LStride carry a row (the rest have row = << >>).
    P and Q are named by point numbers (s means s*T, T the generator of the whole group):
    ps = -1 stands for the base point G (the library is then also driven through ec_point_twin_mult_bp),
-   -2 for -G, -3 for 2G.  PQ is a set of pair codes (ps + 10) * 1000 + (qs + 10)  (a TLC .cfg file cannot
-   hold tuples).                                                                                          *)
+   -2 for -G, -3 for 2G.  PQ is a set of pair codes  full * 1000000 + (ps + 10) * 1000 + (qs + 10)  (a TLC .cfg file
+   cannot hold tuples), full = 1 or 0.                                                                    *)
 EXTENDS EcCurves, Json, Integers
-CONSTANTS CurveNames, PQ, Heavy
-VARIABLES c, ps, qs, P, Q, l, lq, gt, row
-vars == << c, ps, qs, P, Q, l, lq, gt, row >>
+CONSTANTS CurveNames, PQ, LStride, Heavy
+VARIABLES c, full, ps, qs, P, Q, l, lq, gt, row
+vars == << c, full, ps, qs, P, Q, l, lq, gt, row >>
 
 KMax(cv) == LET o == Order(cv) + 1  lim == Pow2(cv.m) - 1 IN IF o < lim THEN o ELSE lim
 Named(cv, s) == IF s = -1 THEN G(cv) ELSE IF s = -2 THEN Neg(cv, G(cv)) ELSE IF s = -3 THEN Dbl(cv, G(cv))
                 ELSE PointNo(cv, s)
 RowOf(cv, tab, pt) == [k \in 1..Len(tab) |-> Add(cv, tab[k], pt)]
+Keep(cv, fl, lv) == fl = 1 \/ lv % LStride = 0 \/ lv \in {0, 1, cv.n - 1, cv.n, KMax(cv)}
 
 Init == /\ c \in { CurveByName(nm) : nm \in CurveNames }
-        /\ \E code \in PQ : ps = (code \div 1000) - 10 /\ qs = (code % 1000) - 10
+        /\ \E code \in PQ : full = code \div 1000000 /\ ps = ((code \div 1000) % 1000) - 10 /\ qs = (code % 1000) - 10
         /\ P = Named(c, ps) /\ Q = Named(c, qs)
         /\ l = 0 /\ lq = Inf
         /\ gt = MulTable(c, P, KMax(c))
@@ -25,20 +27,22 @@ Init == /\ c \in { CurveByName(nm) : nm \in CurveNames }
 Step == /\ l < KMax(c)
         /\ l' = l + 1
         /\ lq' = Add(c, lq, Q)
-        /\ row' = RowOf(c, gt, lq')
-        /\ UNCHANGED << c, ps, qs, P, Q, gt >>
+        /\ row' = IF Keep(c, full, l + 1) THEN RowOf(c, gt, lq') ELSE << >>
+        /\ UNCHANGED << c, full, ps, qs, P, Q, gt >>
 Next == Step
 Spec == Init /\ [][Next]_vars
 
 (* ---- checked by TLC on every state *)
+Has      == row # << >>
 Closed   == \A k \in 1..Len(row) : OnCurve(c, row[k])
-Corners  == \A k \in {0, 1, l, c.n - 1, KMax(c)} : k <= KMax(c) => row[k + 1] = TwinMul(c, k, P, l, Q)
-Diagonal == /\ (Q = P => \A k \in 0..KMax(c) : k + l <= KMax(c) => row[k + 1] = gt[k + l + 1])   \* kP + lP = (k+l)P
+Corners  == Has => \A k \in {0, 1, l, c.n - 1, KMax(c)} : k <= KMax(c) => row[k + 1] = TwinMul(c, k, P, l, Q)
+Diagonal == Has =>
+            /\ (Q = P => \A k \in 0..KMax(c) : k + l <= KMax(c) => row[k + 1] = gt[k + l + 1])   \* kP + lP = (k+l)P
             /\ (Q = Neg(c, P) => row[l + 1] = Inf)                                               \* lP - lP
             /\ (Q = Inf => row = gt)
             /\ row[1] = lq
-AllAgree == Heavy => \A k \in 0..KMax(c) : row[k + 1] = TwinMul(c, k, P, l, Q)
-RowSteps == Heavy => \A k \in 1..(Len(row) - 1) : row[k + 1] = Add(c, row[k], P)
+AllAgree == (Heavy /\ Has) => \A k \in 0..KMax(c) : row[k + 1] = TwinMul(c, k, P, l, Q)
+RowSteps == (Heavy /\ Has) => \A k \in 1..(Len(row) - 1) : row[k + 1] = Add(c, row[k], P)
 
-Emit == PrintT(ToJson([gen |-> "twin", curve |-> c, bp |-> (ps = -1), P |-> P, Q |-> Q, l |-> l, row |-> row]))
+Emit == PrintT(ToJson([gen |-> "twin", curve |-> c, bp |-> (ps = -1), full |-> full, P |-> P, Q |-> Q, l |-> l, row |-> row]))
 =============================================================================
